@@ -624,3 +624,166 @@ func (r *Run) stopExtras(cl *clientState) {
 		}
 	}
 }
+
+// ---------- managed mode (C36) ----------
+
+func init() {
+	extraOps["discard_ts"] = opDiscardTs
+	extraOps["mbatch"] = opManagedBatch
+}
+
+func opDiscardTs(r *Run, cl *clientState, idx int, op *Op) {
+	if !r.c.Cfg.Managed {
+		return
+	}
+	r.mu.Lock()
+	ts := op.Ts
+	if ts < r.discardTs {
+		ts = r.discardTs
+	}
+	r.discardTs = ts
+	r.mu.Unlock()
+	r.db.SetDiscardTs(ts)
+	r.probe("discard_ts_moved")
+	r.logf("c%d SetDiscardTs(%d)", cl.id, ts)
+}
+
+// opManagedBatch: N==0 -> NewManagedWriteBatch with SetEntryAt/DeleteAt (per-entry
+// versions), N==1 -> NewWriteBatchAt(ts).
+func opManagedBatch(r *Run, cl *clientState, idx int, op *Op) {
+	if !r.c.Cfg.Managed {
+		return
+	}
+	pc := &pendingCommit{opIdx: idx, batch: true}
+	cl.cur = pc
+	defer func() { cl.cur = nil }()
+	type lw struct {
+		w   WriteRec
+		ver uint64
+	}
+	lastOp := map[string]lw{} // key\x00version -> last op
+	var wb *badger.WriteBatch
+	var at uint64
+	if op.N == 1 {
+		at = r.managedCommitTs(op.Ts)
+		wb = r.db.NewWriteBatchAt(at)
+	} else {
+		wb = r.db.NewManagedWriteBatch()
+	}
+	for si, so := range op.Sub {
+		key := r.key(so.Key)
+		ver := at
+		if op.N != 1 {
+			ver = so.Ts
+			r.mu.Lock()
+			if ver <= r.discardTs {
+				ver = r.discardTs + 1 + ver%5
+			}
+			r.mu.Unlock()
+		}
+		w := WriteRec{Key: string(key), Ver: ver}
+		var err error
+		if so.K == "del" {
+			w.Del = true
+			if op.N == 1 {
+				err = wb.Delete(key)
+			} else {
+				err = wb.DeleteAt(key, ver)
+			}
+		} else {
+			w.Val = MakeValue(cl.id, idx, si+1, so.Sz)
+			e := badger.NewEntry(key, w.Val)
+			if op.N == 1 {
+				err = wb.SetEntry(e)
+			} else {
+				err = wb.SetEntryAt(e, ver)
+			}
+		}
+		if errors.Is(err, badger.ErrTxnTooBig) {
+			continue
+		}
+		if err != nil {
+			wb.Cancel()
+			r.violate([]string{"C27", "C36"}, "batch-op-error", "c%d managed WriteBatch op %d failed: %v", cl.id, si, err)
+			return
+		}
+		lastOp[fmt.Sprintf("%s\x00%d", w.Key, ver)] = lw{w, ver}
+	}
+	err := wb.Flush()
+	r.logf("c%d managed batch kind=%d of %d ops -> err=%v, %d internal commits", cl.id, op.N, len(op.Sub), err, len(pc.recs))
+	if errors.Is(err, badger.ErrTxnTooBig) {
+		r.probe("batch_flush_txn_too_big")
+		return
+	}
+	if err != nil {
+		r.violate([]string{"C27", "C36"}, "batch-flush-error", "c%d managed WriteBatch.Flush returned %v", cl.id, err)
+		return
+	}
+	r.probe("managed_batches")
+	r.stats.Checks++
+	r.mu.Lock()
+	for _, rec := range pc.recs {
+		rec.Acked = true // Flush returned nil: every internal transaction is applied
+	}
+	r.mu.Unlock()
+	// every (key, version) the batch wrote must have been committed with the last op's content
+	r.mu.Lock()
+	defer r.mu.Unlock()
+	for _, l := range lastOp {
+		var found *WriteRec
+		for _, rec := range pc.recs {
+			for i := range rec.Writes {
+				w := &rec.Writes[i]
+				wv := w.Ver
+				if wv == 0 {
+					wv = rec.Ts
+				}
+				if w.Key == l.w.Key && wv == l.ver {
+					found = w // later internal transactions win
+				}
+			}
+		}
+		if found == nil {
+			r.violateLocked([]string{"C27", "C36"}, "batch-op-lost", "c%d managed WriteBatch: nothing was committed for %q at version %d", cl.id, l.w.Key, l.ver)
+			return
+		}
+		if found.Del != l.w.Del || (!l.w.Del && !bytes.Equal(found.Val, l.w.Val)) {
+			r.violateLocked([]string{"C27", "C36"}, "batch-later-op-did-not-win", "c%d managed WriteBatch: %q@%d committed as %s but the last op issued was %s", cl.id, l.w.Key, l.ver, descW(*found), descW(l.w))
+			return
+		}
+	}
+}
+
+// finalChecksManaged: at quiescence every read at sampled timestamps at or
+// above the discard timestamp equals the model; versions equal the caller's.
+func (r *Run) finalChecksManaged() {
+	r.mu.Lock()
+	keys := r.model.AllKeys()
+	d := r.discardTs
+	mx := r.model.MaxTs()
+	r.mu.Unlock()
+	tss := []uint64{d, d + 1, d + 3, (d + mx) / 2, mx, mx + 1, ^uint64(0)}
+	cl := &clientState{id: -2}
+	for _, rts := range tss {
+		txn := r.db.NewTransactionAt(rts, false)
+		for _, k := range keys {
+			item, err := txn.Get([]byte(k))
+			var o observed
+			if err == nil {
+				o, err = readItem(item, 2)
+			}
+			if err != nil && !errors.Is(err, badger.ErrKeyNotFound) {
+				txn.Discard()
+				r.violate([]string{"C36"}, "managed-read-error", "Get(%q)@%d failed: %v", k, rts, err)
+				return
+			}
+			r.stats.Checks++
+			r.compareManagedRead(cl, []byte(k), rts, now(), o)
+			if r.aborted() {
+				txn.Discard()
+				return
+			}
+		}
+		txn.Discard()
+	}
+}
